@@ -114,7 +114,7 @@ func c13InitChildBody(t *testing.T, seed uint64, kind int) {
 			_, herr = svc.Store().Head(ctx)
 		})
 		height = svc.Store().Height
-	} else if kind == 2 {
+	} else if kind == 2 || kind == 3 {
 		// restart: an earlier incarnation stored headers 1 and 2; the new one publishes 3 and 4 while two
 		// other goroutines look up the head
 		svc1, err := rsync.NewHeaderSyncService(disk.Open(), cfg, c13InitGenesis, pc, logger)
@@ -152,23 +152,54 @@ func c13InitChildBody(t *testing.T, seed uint64, kind int) {
 		if err := svc.Start(ctx); err != nil {
 			panic(err)
 		}
-		ps.Go(func() {
-			ps.Yield()
-			for _, hd := range c13InitHeaders[2:] {
-				if err := svc.WriteToStoreAndBroadcast(ctx, hd); err != nil && werr == nil {
-					werr = fmt.Errorf("header %d: %w", hd.Height(), err)
-				}
-				time.Sleep(2 * time.Millisecond) // the store's writer goroutine publishes the appended header
+		if kind == 3 {
+			// what go-header's syncer does to the store it is given: its sync loop appends the range it fetched while
+			// the handling of an incoming network head appends the same header (each after an unsynchronised look
+			// at the head it remembers), a head lookup in between. Nothing of this may end or hang the process.
+			ps.Go(func() {
 				ps.Yield()
-			}
-		})
-		for k := 0; k < 2; k++ {
+				for _, hd := range c13InitHeaders[2:] {
+					if err := svc.Store().Append(ctx, hd); err != nil && werr == nil {
+						werr = fmt.Errorf("sync loop, header %d: %w", hd.Height(), err)
+					}
+					time.Sleep(2 * time.Millisecond)
+					ps.Yield()
+				}
+			})
+			ps.Go(func() {
+				ps.Yield()
+				if err := svc.Store().Append(ctx, c13InitHeaders[2]); err != nil && werr == nil {
+					werr = fmt.Errorf("incoming head, header 3: %w", err)
+				}
+				ps.Yield()
+				if err := svc.Store().Append(ctx, c13InitHeaders[2:]...); err != nil && werr == nil {
+					werr = fmt.Errorf("incoming head, headers 3..: %w", err)
+				}
+			})
 			ps.Go(func() {
 				ps.Yield()
 				_, herr = svc.Store().Head(ctx)
 			})
+			height = svc.Store().Height
+		} else {
+			ps.Go(func() {
+				ps.Yield()
+				for _, hd := range c13InitHeaders[2:] {
+					if err := svc.WriteToStoreAndBroadcast(ctx, hd); err != nil && werr == nil {
+						werr = fmt.Errorf("header %d: %w", hd.Height(), err)
+					}
+					time.Sleep(2 * time.Millisecond) // the store's writer goroutine publishes the appended header
+					ps.Yield()
+				}
+			})
+			for k := 0; k < 2; k++ {
+				ps.Go(func() {
+					ps.Yield()
+					_, herr = svc.Store().Head(ctx)
+				})
+			}
+			height = svc.Store().Height
 		}
-		height = svc.Store().Height
 	} else {
 		svc, err := rsync.NewDataSyncService(disk.Open(), cfg, c13InitGenesis, pc, logger)
 		if err != nil {
@@ -194,6 +225,22 @@ func c13InitChildBody(t *testing.T, seed uint64, kind int) {
 	case err := <-done:
 		if err != nil {
 			fmt.Printf("C13INIT sched-error seed=%d %v\n", seed, err)
+			// every unfinished task is blocked and none can be released. A task waiting for a channel may be
+			// waiting for a goroutine the scheduler does not supervise (pubsub's validation); a task waiting for a
+			// mutex of the sync service can only be released by another task - there is none left: a deadlock
+			for _, blk := range ps.StuckStacks {
+				first := strings.SplitN(blk, "\n", 2)[0]
+				if (strings.Contains(first, "[sync.Mutex.Lock") || strings.Contains(first, "[sync.RWMutex.")) && strings.Contains(blk, "ev-node/pkg/sync.") {
+					var fr []string
+					for _, l := range strings.Split(blk, "\n") {
+						if strings.Contains(l, "ev-node/pkg/sync.") {
+							fr = append(fr, strings.TrimSpace(strings.SplitN(l, "(", 2)[0]))
+						}
+					}
+					fmt.Printf("C13INIT deadlock seed=%d %s in %s\n", seed, strings.TrimSuffix(strings.SplitN(first, "[", 2)[1], "]:"), strings.Join(fr, " < "))
+					break
+				}
+			}
 		}
 	case <-time.After(20 * time.Second):
 		fmt.Printf("C13INIT timeout seed=%d\n", seed)
@@ -245,6 +292,13 @@ func c13InitRange(kind int, from, to uint64) (ran int, bad []c13InitResult) {
 		out, err := cmd.CombinedOutput()
 		text := string(out)
 		ran += strings.Count(text, "C13INIT done seed=")
+		for _, l := range strings.Split(text, "\n") {
+			if strings.HasPrefix(l, "C13INIT deadlock seed=") {
+				var sd uint64
+				fmt.Sscan(strings.TrimPrefix(l, "C13INIT deadlock seed="), &sd)
+				bad = append(bad, c13InitResult{sd, "DEADLOCK " + strings.TrimSpace(l), false})
+			}
+		}
 		if strings.Contains(text, "C13INIT range-complete") && err == nil {
 			return ran, bad
 		}
@@ -321,7 +375,7 @@ func TestC13InitProbe(t *testing.T) {
 
 // c13InitScenario runs the schedules cfg initfrom-1 .. initto-1 of service kind cfg initkind (a scenario of the C13 whole-node half).
 func c13InitScenario(s *sim.Scn, o *sim.Outcome) {
-	from, to, kind := uint64(s.Cfg["initfrom"]-1), uint64(s.Cfg["initto"]), int(s.Cfg["initkind"]%3)
+	from, to, kind := uint64(s.Cfg["initfrom"]-1), uint64(s.Cfg["initto"]), int(s.Cfg["initkind"]%4)
 	// short-lived children of 32 schedules each (goroutines of torn-down services accumulate in a child), 12 at a time
 	var mu sync.Mutex
 	var wg sync.WaitGroup
@@ -347,7 +401,7 @@ func c13InitScenario(s *sim.Scn, o *sim.Outcome) {
 	}
 	wg.Wait()
 	sort.Slice(bad, func(i, j int) bool { return bad[i].seed < bad[j].seed })
-	name := []string{"header", "data", "header-after-restart"}[kind]
+	name := []string{"header", "data", "header-after-restart", "duplicate-appends-after-restart"}[kind]
 	o.Count("first-item-vs-head-lookup:schedules-run/"+name, ran)
 	o.NonTrivial = ran > 0
 	for _, b := range bad {
@@ -357,6 +411,12 @@ func c13InitScenario(s *sim.Scn, o *sim.Outcome) {
 		var bits []int
 		for i := 0; i < 11; i++ {
 			bits = append(bits, int(b.seed>>uint(i))&1)
+		}
+		if strings.HasPrefix(b.detail, "DEADLOCK ") {
+			o.Fail("C13/concurrent-activities-deadlock", "C13/concurrent-activities-deadlock/"+name+"-vs-head-lookup", int(b.seed),
+				fmt.Sprintf("%s: WriteToStoreAndBroadcast interleaved with head lookups on the same store under schedule %v (schedule id %d): every unfinished activity waits for a lock of the sync service and none is left to release it: %s", name, bits, b.seed, strings.TrimPrefix(b.detail, "DEADLOCK ")),
+				"no interleaving of a node's concurrent activities hangs them")
+			continue
 		}
 		o.Fail("C13/process-killed-by-concurrent-activities", "C13/process-killed-by-concurrent-activities/"+name+"-vs-head-lookup", int(b.seed),
 			fmt.Sprintf("%s: WriteToStoreAndBroadcast (task 0: the first item; after a restart: the next three headers) interleaved with head lookups on the same store (other tasks) under schedule %v (schedule id %d) ends the process: %s", name, bits, b.seed, b.detail),
